@@ -230,6 +230,58 @@ DocMsg == <<8, 0, 0, 0, 121, 0, 0, 0, 232, 3, 0, 0>>                  \* 0800000
 DocObf == <<20, 148, 238, 74, 32, 40, 221, 149, 40, 80, 186, 43, 74, 163, 116, 87>>
 
 -----------------------------------------------------------------------------
+(* Values too big to enumerate byte by byte ("all payload lengths"): one     *)
+(* array field `rep` of the message holds K copies of the same element, the  *)
+(* other fields are the record `rest`.  The body is then                     *)
+(*     pre \o U32(K) \o unit \o ... (K times) ... \o unit \o post            *)
+(* and only the pieces are ever built.                                       *)
+
+FieldIndex(m, name) == CHOOSE j \in 1..Len(m.fields) : m.fields[j].name = name
+
+BodyRange(m, v, lo, hi) ==
+  Flat([i \in 1..(hi - lo + 1) |->
+          LET f == m.fields[lo + i - 1] IN
+            IF Sent(f, v) THEN SerT(f.type, f.subtype, v[f.name]) ELSE <<>>])
+
+RepPieces(m, rest, rep, elem) ==
+  LET r == FieldIndex(m, rep) IN
+    [pre  |-> BodyRange(m, rest, 1, r - 1),
+     unit |-> SerT(m.fields[r].subtype, "none", elem),
+     post |-> BodyRange(m, rest, r + 1, Len(m.fields))]
+
+RepLen(p, K) == Len(p.pre) + 4 + K * Len(p.unit) + Len(p.post)
+
+\* A byte string I is described by [len, pre, cnt, unit, post, periodic]: the harness cut I at the
+\* prescribed piece lengths and computed periodic = (I = pre \o cnt \o unit^K \o post) itself.
+\* With the pieces equal to the prescribed ones, I is the prescribed body.
+SummaryOK(s, p, K) ==
+  /\ s.periodic /\ s.len = RepLen(p, K)
+  /\ s.pre = p.pre /\ s.cnt = U32(K) /\ s.unit = p.unit /\ s.post = p.post
+
+-----------------------------------------------------------------------------
+(* A stream of frames (what a connection puts on the wire).  It is intact    *)
+(* for a set of messages iff it is the concatenation, in some order, of one  *)
+(* whole wire form of each of them; on an obfuscated connection every wire   *)
+(* form is key \o obfuscated(frame) with a key of the sender's choice.       *)
+
+RECURSIVE Perms(_)
+Perms(S) == IF S = {} THEN {<<>>} ELSE UNION {{<<x>> \o q : q \in Perms(S \ {x})} : x \in S}
+
+RECURSIVE StreamFollows(_, _, _, _, _)
+\* the stream from position p on is frames[order[j]], frames[order[j+1]], ... and nothing else
+StreamFollows(stream, p, frames, order, obf) ==
+  IF order = <<>> THEN p = Len(stream) + 1
+  ELSE LET F == frames[Head(order)]
+           n == Len(F) + (IF obf THEN 4 ELSE 0)
+       IN /\ p + n - 1 <= Len(stream)
+          /\ IF obf THEN Deobf(SubSeq(stream, p, p + n - 1)) = F
+                    ELSE SubSeq(stream, p, p + n - 1) = F
+          /\ StreamFollows(stream, p + n, frames, Tail(order), obf)
+
+StreamIntact(stream, frames, obf) ==
+  \E order \in Perms(1..Len(frames)) : StreamFollows(stream, 1, frames, order, obf)
+
+-----------------------------------------------------------------------------
 (* Well-formedness of the pin itself.                                       *)
 
 TypeKnown(t, st) ==
